@@ -170,6 +170,7 @@ pub fn c03_strategy() -> BoxedStrategy<Case> {
         create_topic: 0,
         delete_topic: 0,
         big_payload: 3,
+        uptime_jump: 10,
         max_msgs: vec![1, 2, 3],
         ..W::default()
     };
@@ -232,10 +233,22 @@ pub fn deadline_strategy(with_modify: bool) -> BoxedStrategy<Case> {
         v.push(Op::Pull { s: s0, max: 10, ri: true, a: false });
         v
     });
+    // a modification handed over while more than a mailbox of requests is in flight, followed
+    // at once by a look at its effect
+    let busy_modify = (prop_oneof![Just(0i32), Just(0), Just(30)], 17u8..60).prop_map(move |(secs, n)| {
+        vec![
+            Op::Burst { kind: 3, s: s0, t: t0, n },
+            Op::Tick { n: 1 },
+            Op::Modify { s: s0, refs: vec![AckRef::Recent(0)], secs, a: false },
+            Op::Pull { s: s0, max: 10, ri: true, a: false },
+            Op::Settle,
+        ]
+    });
     let steps = prop_oneof![
         30 => step.prop_map(|o| vec![o]),
         8 => probe_pair,
         2 => close_pair,
+        if with_modify { 2 } else { 0 } => busy_modify,
     ];
     (any::<u64>(), arb_phase(), dl, vec(steps, 4..26), 0u8..12)
         .prop_map(move |(sched_seed, phase_us, dl, body, jump)| {
@@ -374,6 +387,7 @@ pub fn c07_strategy() -> BoxedStrategy<Case> {
         pull_all: 0,
         // wake-ups that leave a waiting Pull empty-handed, minutes into its wait
         empty_publish: 2,
+        abandon_ctrl: 3,
         adv_ms: vec![1, 100, 5_000, 10_200, 30_000, 240_000, 240_000],
         ..W::default()
     };
@@ -417,6 +431,7 @@ pub fn c09_strategy() -> BoxedStrategy<Case> {
         p_async: 0.05,
         payload_rich: true,
         publish: 12,
+        publish_many: 2,
         pull_ri: 8,
         pull_all: 4,
         nack: 5,
@@ -620,6 +635,8 @@ pub fn c12_strategy() -> BoxedStrategy<Case> {
         2 => (1u8..3).prop_map(move |n| Op::Publish { t: t0, n, payload: Payload::plain(), a: true }),
         1 => Just(Op::GetSub { s: s0, a: true }),
         1 => Just(Op::DeleteTopic { t: t0, a: true }),
+        1 => (prop_oneof![Just(2u8), Just(6), Just(0), Just(3)], 17u8..40).prop_map(move |(kind, n)| Op::Burst { kind, s: s0, t: t0, n }),
+        1 => Just(Op::DeleteSub { s: s0, a: true }),
         3 => (0u8..7).prop_map(|n| Op::Tick { n }),
         1 => (vec(arb_ref(1), 0..2), vec((arb_ref(1), Just(30i32)), 0..2)).prop_map(|(acks, mods)| Op::StreamSend { k: 0, acks, mods }),
     ];
@@ -717,11 +734,43 @@ pub fn c15_strategy(big: bool) -> BoxedStrategy<Case> {
         .boxed()
 }
 
+/// C06: consumers that wait, then one publish that makes the backlog length a multiple of 2^16
+/// (or leaves it one off): the waiting consumers must be served.
+pub fn c06_wrap_cases(tier: Tier) -> Vec<Case> {
+    let s0 = S { p: 0, i: 0 };
+    let s1 = S { p: 0, i: 1 };
+    let t0 = T { p: 0, i: 0 };
+    let sizes: &[u32] = match tier {
+        Tier::Quick => &[65_536, 65_537],
+        Tier::Thorough => &[65_535, 65_536, 65_537, 131_072],
+    };
+    sizes
+        .iter()
+        .map(|n| Case {
+            sched_seed: *n as u64,
+            phase_us: 0,
+            fanout_seed: 0,
+            points: vec![],
+            ops: vec![
+                Op::CreateTopic { t: t0, a: false },
+                Op::CreateSub { s: s0, t: t0, dl: 10, push: 0, a: false },
+                Op::CreateSub { s: s1, t: t0, dl: 10, push: 0, a: false },
+                Op::Pull { s: s0, max: 10, ri: false, a: true },
+                Op::StreamOpen { s: s1, max_out: 10 },
+                Op::Settle,
+                Op::PublishMany { t: t0, n: *n, a: false },
+                Op::Settle,
+                Op::StreamDrop { k: 0 },
+            ],
+        })
+        .collect()
+}
+
 pub fn c15_wrap_cases(tier: Tier) -> Vec<Case> {
     let s0 = S { p: 0, i: 0 };
     let t0 = T { p: 0, i: 0 };
     let backlogs: &[u32] = match tier {
-        Tier::Quick => &[65_537, 65_541, 131_073],
+        Tier::Quick => &[65_536, 65_537, 65_541, 131_073],
         Tier::Thorough => &[65_535, 65_536, 65_537, 65_541, 66_000, 66_536, 131_072, 131_073, 131_100],
     };
     let maxes: &[i32] = match tier {
@@ -917,6 +966,9 @@ pub fn run_worker(ctx: &WorkerCtx) -> WorkerOut {
             crate::enumerate::c02_enumeration(ctx, &mut out);
             let nt = |_: &Case, r: &Report| (r.feat.acks_effective > 0 && r.feat.ack_with_other_outstanding_then_deadline_passed) || r.feat.stale_or_unknown_ack_while_outstanding;
             run_sim_stage(ctx, SimStage { name: "random", strategy: c02_strategy(), cfg: sim_cfg(true), cases: ctx.share(scale(t, 4_000, 120_000)), nontrivial: &nt, classes: &std_classes, extra: None }, &mut out);
+            // the same histories without a quiescent point after every operation: what a returned
+            // Acknowledge has not applied yet meets the clock moving past the deadline
+            run_sim_stage(ctx, SimStage { name: "random_unsettled", strategy: c02_strategy(), cfg: sim_cfg(false), cases: ctx.share(scale(t, 8_000, 120_000)), nontrivial: &nt, classes: &std_classes, extra: None }, &mut out);
         }
         "C03" => {
             let nt = |_: &Case, r: &Report| r.feat.concurrent_consumers_with_2_msgs && r.feat.redeliveries > 0;
@@ -939,6 +991,7 @@ pub fn run_worker(ctx: &WorkerCtx) -> WorkerOut {
         "C06" => {
             let nt = |_: &Case, r: &Report| r.feat.avail_event_with_waiter && (r.feat.waiters_max >= 2 || r.feat.abort_of_consumer);
             run_sim_stage(ctx, SimStage { name: "wakeups", strategy: c06_strategy(), cfg: sim_cfg(false), cases: ctx.share(scale(t, 36_000, 400_000)), nontrivial: &nt, classes: &std_classes, extra: None }, &mut out);
+            run_case_list(ctx, "wrap_backlogs", c06_wrap_cases(t), &RunCfg { horizon: false, drain: false, qp_each_op: false }, &mut out);
         }
         "C07" => {
             let nt = |_: &Case, r: &Report| r.feat.max_in_flight > 16 && (r.feat.publishes_ok > 0 || r.feat.overlapping_control_on_name || r.feat.create_delete_overlapping_publish);
@@ -951,6 +1004,10 @@ pub fn run_worker(ctx: &WorkerCtx) -> WorkerOut {
         "C08" => {
             let nt = |_: &Case, r: &Report| r.feat.overlapping_publishes && r.feat.subs_with_first_deliveries >= 2;
             run_sim_stage(ctx, SimStage { name: "order", strategy: c08_strategy(), cfg: sim_cfg(false), cases: ctx.share(scale(t, 8_000, 200_000)), nontrivial: &nt, classes: &std_classes, extra: None }, &mut out);
+            // publishers in parallel on real threads: ids, id/payload pairing and delivery order
+            if out.failure.is_none() {
+                crate::push::mt_answer_check(ctx, &mut out, "publish", scale(t, 2, 40));
+            }
         }
         "C09" => {
             let nt = |_: &Case, r: &Report| r.feat.redelivered_with_attrs_or_binary || r.feat.topic_instances_same_name >= 2;
@@ -959,6 +1016,10 @@ pub fn run_worker(ctx: &WorkerCtx) -> WorkerOut {
             // push delivery path (real HTTP endpoint)
             if out.failure.is_none() {
                 crate::push::push_check(ctx, &mut out, 1);
+            }
+            // publishers in parallel on real threads: id uniqueness and id/payload pairing
+            if out.failure.is_none() {
+                crate::push::mt_answer_check(ctx, &mut out, "publish", scale(t, 2, 40));
             }
         }
         "C10" => {
@@ -988,10 +1049,18 @@ pub fn run_worker(ctx: &WorkerCtx) -> WorkerOut {
             run_case_list(ctx, "walks_1003", c13_big_cases(t), &RunCfg { horizon: false, drain: false, qp_each_op: false }, &mut out);
             let nt = |_: &Case, r: &Report| r.feat.walks_multi_page_after_delete > 0 || r.feat.hostile_tokens > 0;
             run_sim_stage(ctx, SimStage { name: "walks", strategy: c13_strategy(t == Tier::Thorough), cfg: RunCfg { horizon: false, drain: false, qp_each_op: false }, cases: ctx.share(scale(t, 12_000, 80_000)), nontrivial: &nt, classes: &no_classes, extra: None }, &mut out);
+            // listings racing creations and deletions on real threads, then a quiet walk
+            if out.failure.is_none() {
+                crate::push::mt_answer_check(ctx, &mut out, "list", scale(t, 2, 20));
+            }
         }
         "C15" => {
             let nt = |_: &Case, r: &Report| r.feat.backlog_over_limit || r.feat.big_limit || r.feat.blocking_pull_waited;
             run_sim_stage(ctx, SimStage { name: "limits", strategy: c15_strategy(false), cfg: sim_cfg(false), cases: ctx.share(scale(t, 3_000, 40_000)), nontrivial: &nt, classes: &std_classes, extra: None }, &mut out);
+            // through a real connection: long polls parked on it must not starve other requests
+            if out.failure.is_none() {
+                crate::push::wire_check(ctx, &mut out);
+            }
             // the 16-bit wrap of the backlog length: a few very large backlogs, fixed cases
             run_case_list(ctx, "limits_wrap", c15_wrap_cases(t), &RunCfg { horizon: false, drain: false, qp_each_op: false }, &mut out);
             if t == Tier::Thorough {
@@ -1018,12 +1087,21 @@ pub fn run_worker(ctx: &WorkerCtx) -> WorkerOut {
         "C17" => {
             let nt = |c: &Case, _: &Report| crate::c17::has_mixed_rejection(c);
             run_sim_stage(ctx, SimStage { name: "malformed", strategy: crate::c17::c17_strategy(), cfg: sim_cfg(false), cases: ctx.share(scale(t, 24_000, 200_000)), nontrivial: &nt, classes: &crate::c17::c17_classes, extra: Some(&crate::c17::c17_extra) }, &mut out);
+            // push endpoints that are almost URLs, with the real push loop running
+            if out.failure.is_none() {
+                crate::push::push_endpoint_check(ctx, &mut out);
+            }
         }
         "C18" => {
             crate::pure::names_check(ctx, &mut out);
             // the same property at the RPC level: variants of existing names sent through gRPC
             let nt = |c: &Case, _: &Report| c.ops.iter().any(|o| matches!(o, Op::Raw { .. }));
-            run_sim_stage(ctx, SimStage { name: "rpc_names", strategy: crate::c17::c18_rpc_strategy(), cfg: RunCfg { horizon: false, drain: false, qp_each_op: false }, cases: ctx.share(scale(t, 3_000, 60_000)), nontrivial: &nt, classes: &no_classes, extra: None }, &mut out);
+            // in this stage a resource that disappears (or appears) under a name nobody deleted
+            // (or created) means that two names denote one resource
+            let extra = |_: &Case, _: &crate::trace::Trace, r: &Report| -> Vec<Violation> {
+                r.violations.iter().filter(|v| v.rule == "not_linearizable" && !v.props.iter().any(|p| p == "C18")).map(|v| Violation { rule: v.rule.clone(), props: vec!["C18".into()], at: v.at, detail: v.detail.clone() }).collect()
+            };
+            run_sim_stage(ctx, SimStage { name: "rpc_names", strategy: crate::c17::c18_rpc_strategy(), cfg: RunCfg { horizon: false, drain: false, qp_each_op: false }, cases: ctx.share(scale(t, 3_000, 60_000)), nontrivial: &nt, classes: &no_classes, extra: Some(&extra) }, &mut out);
         }
         "C19" => crate::flow::flow_check(ctx, &mut out),
         other => {
@@ -1070,6 +1148,13 @@ pub fn replay_input(prop: &str, input: &serde_json::Value) -> Result<Vec<Violati
             if prop == "C17" {
                 vs.extend(crate::c17::c17_extra(&case, &tr, &crate::model::Report::default()));
             }
+            if prop == "C18" && input.get("stage").and_then(|s| s.as_str()) == Some("rpc_names") {
+                for v in vs.iter_mut() {
+                    if v.rule == "not_linearizable" && !v.props.iter().any(|p| p == "C18") {
+                        v.props.push("C18".into());
+                    }
+                }
+            }
             if prop == "C16" && input.get("stage").and_then(|s| s.as_str()) == Some("abandoned_consumers") {
                 // in that stage every consumer is an abandoned one: the delivery rules count for C16
                 for v in vs.iter_mut() {
@@ -1085,6 +1170,9 @@ pub fn replay_input(prop: &str, input: &serde_json::Value) -> Result<Vec<Violati
         "push" => crate::push::replay_push(input),
         "mt_storm" => crate::push::replay_mt_storm(input),
         "mt_delete_storm" => crate::push::replay_mt_delete(input),
+        "mt_answer_storm" => crate::push::replay_mt_answer(input),
+        "push_endpoint_probe" => crate::push::replay_push_endpoint(input),
+        "wire_probe" => crate::push::replay_wire(input),
         "flow_explorer" | "flow_stress" => crate::flow::replay_flow(input),
         other => Err(format!("unknown engine {}", other)),
     }
